@@ -7,7 +7,7 @@
    oracle answer, C04_Reduce.v) and the step-length kernel of the Newton iteration (C04_Step.v) inside the model. *)
 From Coq Require Import List ZArith QArith Qminmax Qabs Bool Lia Lqa.
 From LNGen Require Import Src_c04.
-From LN Require Import C04_Defs C04_Proofs C04_Reduce C04_ReduceProofs C04_Step C04_StepProofs.
+From LN Require Import C04_Defs C04_Proofs C04_Reduce C04_ReduceProofs C04_Step C04_StepProofs C04_Iter_Defs C04_Iter.
 Import ListNotations.
 Local Open Scope Q_scope.
 
@@ -302,4 +302,228 @@ Print Assumptions C04_step_strict_with_s0_one_refuted.
 Example C04_nonvacuous_step :
   all_pos_b (step_point [1; 2] [-(4); 1] (step_len 1000 (999 # 1000) (9 # 10) [1; 2] [-(4); 1] 1 2)) = true
   /\ step_len 1000 (999 # 1000) (9 # 10) [1; 2] [-(4); 1] 0 0 == (999 # 4000).
+Proof. split; vm_compute; reflexivity. Qed.
+
+(* ==== the Newton iteration of solve_with_inequality (C04_Iter_Defs.v: update, reduced KKT system, back-substitution, the two
+   backtracking stages, the five exits; the linear solve is an oracle answer) ============================================ *)
+(* vectors are compared entrywise up to Qeq ([veq]); [qmv P d] is Q d (the zero vector for a linear program) *)
+
+(* (1) elimination is correct: an exact solution (dx, dv) of the reduced system the code hands to the LDLT,
+       [[Q - G' diag(u/(Gx-h)) G, A'], [A, 0]] (dx, dv) = (-(rdual + G' (rcent/(Gx-h))), -rprim),
+   together with du = (rcent - u .* (G dx)) / (Gx - h) solves the full primal-dual Newton system
+       Q dx + G' du + A' dv = -rdual,   -u .* (G dx) - (Gx-h) .* du = -rcent,   A dx = -rprim
+   for every program, every point with Gx - h <> 0 entrywise, every right-hand side (stored residuals included) *)
+Theorem C04_iter_elimination : forall P x u rd rc rp dx dv du,
+  wf P -> length x = dim P -> length u = length (pG P) -> length rd = dim P -> length rc = length (pG P) ->
+  length rp = length (pA P) -> length dx = dim P -> length dv = length (pA P) ->
+  Forall (fun t => ~ t == 0) (gxh P x) ->
+  veq (mv (lmat P x u) (dx ++ dv)) (lvec P x rd rc rp) ->
+  veq du (back_subst P x u rc dx) ->
+  veq (vadd (vadd (qmv P dx) (mtv (dim P) (pG P) du)) (mtv (dim P) (pA P) dv)) (vopp rd) /\
+  veq (vsub (vopp (vmul u (mv (pG P) dx))) (vmul (gxh P x) du)) (vopp rc) /\
+  veq (mv (pA P) dx) (vopp rp).
+Proof. exact iter_elimination. Qed.
+Print Assumptions C04_iter_elimination.
+
+(* (2) both linear residuals contract exactly by 1 - s along such a direction, for every step length s *)
+Theorem C04_iter_rprim_contracts : forall P x dx s, wf P -> length x = dim P -> length dx = dim P ->
+  veq (mv (pA P) dx) (vopp (m_rprim P x)) ->
+  veq (m_rprim P (vadd x (vscale s dx))) (vscale (1 - s) (m_rprim P x)).
+Proof. exact iter_rprim_contracts. Qed.
+Print Assumptions C04_iter_rprim_contracts.
+
+Theorem C04_iter_rdual_contracts : forall P x u v dx du dv s,
+  wf P -> length x = dim P -> length u = length (pG P) -> length v = length (pA P) ->
+  length dx = dim P -> length du = length (pG P) -> length dv = length (pA P) ->
+  veq (vadd (vadd (qmv P dx) (mtv (dim P) (pG P) du)) (mtv (dim P) (pA P) dv)) (vopp (m_rdual P x u v)) ->
+  veq (m_rdual P (vadd x (vscale s dx)) (vadd u (vscale s du)) (vadd v (vscale s dv))) (vscale (1 - s) (m_rdual P x u v)).
+Proof. exact iter_rdual_contracts. Qed.
+Print Assumptions C04_iter_rdual_contracts.
+
+(* (1) + (2) end to end: the reduced system solved on the residuals of the current point *)
+Theorem C04_iter_newton_step_contracts : forall P x u v rc dx dv s,
+  wf P -> length x = dim P -> length u = length (pG P) -> length v = length (pA P) -> length rc = length (pG P) ->
+  length dx = dim P -> length dv = length (pA P) -> Forall (fun t => ~ t == 0) (gxh P x) ->
+  veq (mv (lmat P x u) (dx ++ dv)) (lvec P x (m_rdual P x u v) rc (m_rprim P x)) ->
+  let du := back_subst P x u rc dx in
+  veq (m_rprim P (vadd x (vscale s dx))) (vscale (1 - s) (m_rprim P x)) /\
+  veq (m_rdual P (vadd x (vscale s dx)) (vadd u (vscale s du)) (vadd v (vscale s dv))) (vscale (1 - s) (m_rdual P x u v)).
+Proof.
+  intros P x u v rc dx dv s W Lx Lu Lv Lrc Ldx Ldv Hnz Hsys du.
+  assert (Lrd : length (m_rdual P x u v) = dim P).
+  { rewrite (veq_length _ _ (m_rdual_char P x u v W)).
+    pose proof (wf_Grows P W). pose proof (wf_Arows P W). pose proof (length_qmv P x W).
+    assert (length (pc P) = dim P) by reflexivity. len. }
+  assert (Lrp : length (m_rprim P x) = length (pA P)) by (unfold m_rprim; pose proof (wf_b P W); len).
+  destruct (iter_elimination P x u (m_rdual P x u v) rc (m_rprim P x) dx dv du W Lx Lu Lrd Lrc Lrp Ldx Ldv Hnz Hsys (veq_refl _))
+    as [N1 [_ N3]].
+  assert (Ldu : length du = length (pG P)).
+  { unfold du. rewrite (veq_length _ _ (back_subst_veq P x u rc dx)). pose proof (length_gxh P x W). len. }
+  split; [apply iter_rprim_contracts; assumption|apply iter_rdual_contracts; assumption].
+Qed.
+Print Assumptions C04_iter_newton_step_contracts.
+
+(* (3) invariants of every iterate the loop can reach, for every oracle answer (and every du): lengths, G x - h < 0 strictly
+   (stage 1's test is the guard, stage 2 only shrinks the step: the segment to a strictly feasible point is strictly feasible)
+   and u > 0 (0 < s <= s0 * make_smax with s0 < 1: the argument of C04_step_keeps_positive) *)
+Theorem C04_iter_step_invariant : forall P mufx par st ans du,
+  wf P -> 0 < p_big par -> 0 < p_s0 par -> p_s0 par < 1 -> 0 < p_beta par -> p_beta par <= 1 -> (0 <= p_maxls par)%Z ->
+  inv P st -> inv P (snd (fst (iter_core P mufx par st ans du))).
+Proof. exact iter_core_invariant. Qed.
+Print Assumptions C04_iter_step_invariant.
+
+Theorem C04_iter_start_invariant : forall P mufx par x0 st,
+  wf P -> length x0 = dim P -> iter_start P mufx par x0 = Some st -> inv P st.
+Proof. exact iter_start_invariant. Qed.
+Print Assumptions C04_iter_start_invariant.
+
+Theorem C04_iter_run_invariant : forall P mufx par,
+  wf P -> 0 < p_big par -> 0 < p_s0 par -> p_s0 par < 1 -> 0 < p_beta par -> p_beta par <= 1 -> (0 <= p_maxls par)%Z ->
+  forall fuel iters maxit st answers, inv P st -> inv P (fst (iter_run fuel iters maxit P mufx par st answers)).
+Proof. exact iter_run_invariant. Qed.
+Print Assumptions C04_iter_run_invariant.
+
+(* hence eta > 0 and update() never divides by zero at an iterate *)
+Theorem C04_iter_eta_positive : forall P st, wf P -> inv P st -> pG P <> [] ->
+  0 < m_eta P (i_x st) (i_u st) /\ Forall (fun t => ~ t == 0) (gxh P (i_x st)).
+Proof. intros P st W I Hne. split; [apply inv_eta_positive; assumption|apply inv_domain; assumption]. Qed.
+Print Assumptions C04_iter_eta_positive.
+
+(* (4) stage 2 returns by exhaustion or at a trial point that passed `residual <= (1 - alpha s) r0` (squared: the norms are
+   square roots); an exhausted stage 2 with residual > r0 re-evaluates update() at the current point, which with inequalities and
+   equalities present overwrites every residual field ... *)
+Theorem C04_iter_stage2_exit : forall P mufx miu alpha x u v dx du dv beta r0sq maxls s res k s' res',
+  0 < beta -> beta <= 1 -> 0 < s -> (0 <= maxls)%Z ->
+  stage2 (S (Z.to_nat maxls)) src_c04_ls_start2 maxls P mufx miu alpha x u v dx du dv s beta r0sq res = (k, s', res') ->
+  k = maxls \/
+  (exists rprev, res' = upd P mufx miu (trial x dx s') (trial u du s') (trial v dv s') rprev) /\
+  res2 res' <= phi (1 - alpha * s') * r0sq /\
+  (0 <= 1 - alpha * s' -> res2 res' <= (1 - alpha * s') * (1 - alpha * s') * r0sq).
+Proof. exact iter_stage2_exit. Qed.
+Print Assumptions C04_iter_stage2_exit.
+
+Theorem C04_iter_revert_restores : forall P mufx miu x u v r0 rt, pG P <> [] -> pA P <> [] ->
+  upd P mufx miu x u v rt = upd P mufx miu x u v r0.
+Proof. exact iter_revert_restores. Qed.
+Print Assumptions C04_iter_revert_restores.
+
+(* ... and without equalities everything but m_rprim (the empty vector) *)
+Theorem C04_iter_revert_restores_ineq_only : forall P mufx miu x u v r1 r2, pG P <> [] ->
+  s_fx (upd P mufx miu x u v r1) = s_fx (upd P mufx miu x u v r2) /\
+  s_eta (upd P mufx miu x u v r1) = s_eta (upd P mufx miu x u v r2) /\
+  s_rdual (upd P mufx miu x u v r1) = s_rdual (upd P mufx miu x u v r2) /\
+  s_rcent (upd P mufx miu x u v r1) = s_rcent (upd P mufx miu x u v r2) /\
+  (pA P = [] -> s_rprim (upd P mufx miu x u v r1) = s_rprim r1).
+Proof. exact upd_independent_ineq. Qed.
+Print Assumptions C04_iter_revert_restores_ineq_only.
+
+(* (5) the five exits: which state and which status each leaves (exits 1, 2: the state as it was; exit 3: (x, u, v) as they
+   were, the residual fields either re-evaluated (residual > r0) or those of the last TRIAL point (residual <= r0); exits 1, 2,
+   3, 5: status = done() on the stored numbers; exit 4: failed; exit 0: status untouched) *)
+Theorem C04_iter_exits : forall P mufx par st ans du,
+  let k := fst (fst (iter_core P mufx par st ans du)) in
+  let st' := snd (fst (iter_core P mufx par st ans du)) in
+  ((k = 1%Z \/ k = 2%Z) /\ i_x st' = i_x st /\ i_u st' = i_u st /\ i_v st' = i_v st /\ i_res st' = i_res st /\ i_status st' = stored_done P par st')
+  \/ (k = 3%Z /\ i_x st' = i_x st /\ i_u st' = i_u st /\ i_v st' = i_v st /\ i_status st' = stored_done P par st' /\
+      exists rt, (res2 (i_res st) < res2 rt /\ i_res st' = upd P mufx (p_miu par) (i_x st) (i_u st) (i_v st) rt)
+                 \/ (res2 rt <= res2 (i_res st) /\ i_res st' = rt))
+  \/ (k = 4%Z /\ i_status st' = st_failed)
+  \/ (k = 5%Z /\ i_status st' = stored_done P par st')
+  \/ (k = 0%Z /\ i_status st' = i_status st).
+Proof. exact iter_core_exits. Qed.
+Print Assumptions C04_iter_exits.
+
+(* `converged` only through done(): feasible and eta, |rdual|^2, |rprim|^2 below epsilon, epsilon^2 -- on the STORED numbers *)
+Theorem C04_iter_converged_only_through_done : forall P mufx par st ans du, 0 <= p_eps par -> i_status st <> st_converged ->
+  let k := fst (fst (iter_core P mufx par st ans du)) in
+  let st' := snd (fst (iter_core P mufx par st ans du)) in
+  i_status st' = st_converged ->
+  (k = 1 \/ k = 2 \/ k = 3 \/ k = 5)%Z /\
+  feasible_dec P (i_x st') (p_eps2 par) = true /\ s_eta (i_res st') < p_eps par /\
+  sumsq (s_rdual (i_res st')) < p_eps par * p_eps par /\ sumsq (s_rprim (i_res st')) < p_eps par * p_eps par.
+Proof. exact iter_converged_only_through_done. Qed.
+Print Assumptions C04_iter_converged_only_through_done.
+
+(* the `very precise convergence` test (exit 5), for rational roots a, b, c, d of the four squared norms *)
+Theorem C04_iter_precise_test : forall peta ceta prd2 crd2 prp2 crp2 eps0 a b c d,
+  0 <= eps0 -> 0 <= a -> 0 <= b -> 0 <= c -> 0 <= d -> a * a == prd2 -> b * b == crd2 -> c * c == prp2 -> d * d == crp2 ->
+  (precise_test peta ceta prd2 crd2 prp2 crp2 eps0 = true <-> peta - ceta < eps0 /\ a - b < eps0 /\ c - d < eps0).
+Proof. exact precise_test_spec. Qed.
+Print Assumptions C04_iter_precise_test.
+
+(* false of the faithful model (known finding `objective-stale-trial-point`): "after every pass the reported objective / gap are
+   those of the returned x". min 2x s.t. -x <= 0 at x = 1, u = 2 (strictly feasible, residuals of that point, the EXACT Newton
+   direction), solver::alpha = 0.99, beta = 0.99, max_lsearch_iters = 10, s0 = 0.999, miu = 10 (all inside the registered ranges):
+   stage 2 is exhausted with residual <= r0, x is returned as it was, m_fx and m_eta are those of the last trial point, and
+   done() decides (unbounded) on that mixture *)
+Definition Pst : program := mkP [] [2] [] [] [[-(1)]] [0].
+Definition par_st : params := mkPar (999 # 1000) 10 (99 # 100) (99 # 100) (1 # 10000000000) 0 (1 # 100000000) 10 1000000.
+Definition st_st : istate := mkI [1] [2] [] (upd Pst 1 10 [1] [2] [] (res_init Pst)) 0.
+Definition ans_st : answer :=
+  let r := i_res st_st in
+  mkAns [nth 0 (lvec Pst [1] (s_rdual r) (s_rcent r) (s_rprim r)) 0 / nth 0 (nth 0 (lmat Pst [1] [2]) []) 0] [] true true.
+
+Theorem C04_iter_reported_numbers_of_returned_point_refuted :
+  exists P mufx par st ans,
+    inv P st /\ i_res st = upd P mufx (p_miu par) (i_x st) (i_u st) (i_v st) (res_init P) /\
+    all_zero_b (sys_residual P (i_x st) (i_u st) (s_rdual (i_res st)) (s_rcent (i_res st)) (s_rprim (i_res st)) (a_dx ans) (a_dv ans)) = true /\
+    let k := fst (fst (iter_step P mufx par st ans)) in
+    let st' := snd (fst (iter_step P mufx par st ans)) in
+    k = 3%Z /\ i_x st' = i_x st /\ i_u st' = i_u st /\
+    ~ s_fx (i_res st') == m_fx mufx P (i_x st') /\ ~ s_eta (i_res st') == m_eta P (i_x st') (i_u st').
+Proof.
+  exists Pst, 1, par_st, st_st, ans_st. split.
+  - constructor; simpl; try reflexivity; repeat constructor.
+  - split; [reflexivity|]. split; [vm_compute; reflexivity|].
+    vm_compute. repeat split; try reflexivity; intro H; discriminate.
+Qed.
+Print Assumptions C04_iter_reported_numbers_of_returned_point_refuted.
+
+(* ---- non-vacuity of the iteration theorems ---------------------------------------------------------------------------- *)
+(* min x1^2 + x2 s.t. x1 + x2 = 1, x >= 0 (P0) at x = (1/4, 3/4), u = (1, 1), v = 0: the exact Newton direction *)
+Definition x_it : vec := [1 # 4; 3 # 4].
+Definition u_it : vec := [1; 1].
+Definition par_it : params := mkPar (999 # 1000) 10 (1 # 100) (9 # 10) (1 # 10000000000) 0 (1 # 100000000) 50 1000000.
+Definition st_it : istate := mkI x_it u_it [0] (upd P0 1 10 x_it u_it [0] (res_init P0)) 0.
+(* the exact solution of the 3 x 3 reduced system at this point *)
+Definition ans_it : answer := mkAns [(19 # 220); (-(19) # 220)] [(-(9) # 11)] true true.
+
+Example C04_nonvacuous_iter_inv : inv P0 st_it.
+Proof. constructor; simpl; try reflexivity; repeat constructor. Qed.
+
+Example C04_nonvacuous_iter_start : exists st, iter_start P0 1 par_it x_it = Some st /\ inv P0 st.
+Proof.
+  destruct (iter_start P0 1 par_it x_it) as [st|] eqn:E; [|vm_compute in E; discriminate].
+  exists st. split; [reflexivity|]. apply (C04_iter_start_invariant P0 1 par_it x_it st C04_nonvacuous_wf eq_refl E).
+Qed.
+
+Example C04_nonvacuous_iter_system :
+  all_zero_b (sys_residual P0 x_it u_it (s_rdual (i_res st_it)) (s_rcent (i_res st_it)) (s_rprim (i_res st_it)) (a_dx ans_it) (a_dv ans_it)) = true.
+Proof. vm_compute. reflexivity. Qed.
+
+(* the hypotheses of (1)/(2) hold for it, and the conclusion is what a direct evaluation gives at s = 1/2 *)
+Example C04_nonvacuous_iter_contracts :
+  veq (m_rprim P0 (vadd x_it (vscale (1 # 2) (a_dx ans_it)))) (vscale (1 - (1 # 2)) (m_rprim P0 x_it)) /\
+  veq (m_rdual P0 (vadd x_it (vscale (1 # 2) (a_dx ans_it)))
+                  (vadd u_it (vscale (1 # 2) (back_subst P0 x_it u_it (s_rcent (i_res st_it)) (a_dx ans_it))))
+                  (vadd [0] (vscale (1 # 2) (a_dv ans_it))))
+      (vscale (1 - (1 # 2)) (m_rdual P0 x_it u_it [0])).
+Proof.
+  apply (C04_iter_newton_step_contracts P0 x_it u_it [0] (s_rcent (i_res st_it)) (a_dx ans_it) (a_dv ans_it) (1 # 2));
+    try exact C04_nonvacuous_wf; try reflexivity.
+  - repeat constructor; vm_compute; intro H; discriminate.
+  - unfold veq. vm_compute. repeat constructor.
+Qed.
+
+(* one pass of the model on it: accepted step (exit 0), the invariant holds at the new iterate, stage 2 passed its test *)
+Example C04_nonvacuous_iter_step :
+  fst (fst (iter_step P0 1 par_it st_it ans_it)) = 0%Z /\ inv P0 (snd (fst (iter_step P0 1 par_it st_it ans_it))) /\
+  strict_b P0 (i_x (snd (fst (iter_step P0 1 par_it st_it ans_it)))) = true.
+Proof.
+  split; [vm_compute; reflexivity|]. split; [|vm_compute; reflexivity].
+  apply C04_iter_step_invariant; try exact C04_nonvacuous_wf; try exact C04_nonvacuous_iter_inv; vm_compute; reflexivity || (intro H; discriminate).
+Qed.
+
+(* a pass that ends in done() with `converged`: the optimum itself with a tiny gap, a null direction, stage 1 exhausted *)
+Example C04_nonvacuous_iter_precise : precise_test 1 1 4 4 9 9 (1 # 10) = true /\ precise_test 1 0 4 4 9 9 (1 # 10) = false.
 Proof. split; vm_compute; reflexivity. Qed.
